@@ -277,7 +277,14 @@ func c18Traces(log []*fed.Arrival, sent map[*fed.UpSub]int, subs []*fed.UpSub) [
 	hByGid := map[uint64][]string{}
 	var hOrder []uint64
 	idx := map[string]map[uint64]*gseq{}
+	exited := map[string]map[uint64]bool{} // key ↦ goroutines that passed their `*.done` point
 	for _, a := range log {
+		if strings.HasSuffix(a.Point, ".done") && a.Key != "" {
+			if exited[a.Key] == nil {
+				exited[a.Key] = map[uint64]bool{}
+			}
+			exited[a.Key][a.Gid] = true
+		}
 		if strings.HasPrefix(a.Point, "W.") || strings.HasSuffix(a.Point, ".done") {
 			continue
 		}
@@ -308,23 +315,56 @@ func c18Traces(log []*fed.Arrival, sent map[*fed.UpSub]int, subs []*fed.UpSub) [
 		g.points = append(g.points, a.Point)
 	}
 	var out []map[string]interface{}
-	for k, key := range keyOrder {
+	k := 0 // index among the ESTABLISHED subscriptions (the upstream only sees those)
+	for _, key := range keyOrder {
 		obs := map[string][]string{}
 		var closer []string
 		complete := true
+		// a start whose Subscribe FAILED after the handshake: no Listen, no Close; the reader never
+		// reached its read loop (its first hook point is the deferred block's `Rq.upClose`)
+		var refusedRq, refusedCq *gseq
+		hasL, hasEst := false, false
 		for _, g := range byKey[key] {
 			switch g.points[0] {
 			case "L.sel":
 				obs["L"] = g.points[1:]
+				hasL = true
 			case "Cq.recvQ":
 				obs["Cq"] = g.points[1:]
+				refusedCq = g
 			case "Rq.upRead":
 				obs["Rq"] = g.points[1:]
+				hasEst = true
+			case "Rq.upClose":
+				refusedRq = g
+				complete = false
 			case "K.tryLock", "C.lock":
 				closer = g.points
 			default:
 				complete = false
 			}
+		}
+		if !hasL && !hasEst && len(closer) == 0 && (refusedRq != nil || refusedCq != nil) {
+			// the establishment phase (Model/SubInit.lean): the hook points it has are `Cq.recvQ`,
+			// `Cq.upClose`, `Rq.upClose`, `Rq.sendNil` and the two `*.done`; the writes, `fail`, the
+			// sends on errCh and the caller pass no hook point, so the trace identifies the run only
+			// up to these projections — plus the set of goroutines that have exited
+			robs := map[string][]string{"Cq": {}, "Rq": {}}
+			done := []string{}
+			if refusedCq != nil {
+				robs["Cq"] = refusedCq.points[1:]
+				if exited[key][refusedCq.gid] {
+					done = append(done, "Cq")
+				}
+			}
+			if refusedRq != nil {
+				robs["Rq"] = refusedRq.points
+				if exited[key][refusedRq.gid] {
+					done = append(done, "Rq")
+				}
+			}
+			out = append(out, map[string]interface{}{"refused": true, "obs": robs, "done": done, "complete": false})
+			continue
 		}
 		if obs["L"] == nil || obs["Cq"] == nil || obs["Rq"] == nil {
 			complete = false
@@ -338,6 +378,7 @@ func c18Traces(log []*fed.Arrival, sent map[*fed.UpSub]int, subs []*fed.UpSub) [
 			evs = sent[subs[k]]
 		}
 		out = append(out, map[string]interface{}{"obs": obs, "closer": closer, "evs": evs, "complete": complete})
+		k++
 	}
 	return out
 }
